@@ -458,6 +458,18 @@ Definition str_method (m : string) (s : list N) (args : list val) : res val :=
     | [] => Ok (VStr (py_strip s))
     | _ => Stuck "str.strip: only without arguments"
     end
+  else if String.eqb m "encode" then
+    (* str.encode("utf-8"): strict (a surrogate code point raises UnicodeEncodeError); bytes are
+       VObj "bytes" [("data", VStr <byte values>)] *)
+    match args with
+    | [VStr enc] =>
+      if str_eqb enc [117; 116; 102; 45; 56]%N then
+        if forallb (fun c => negb (is_surrogate c)) s
+        then Ok (VObj "bytes" [("data", VStr (utf8_enc_all s))])
+        else Raise (ExcUser "UnicodeEncodeError")
+      else Stuck "str.encode: only utf-8"
+    | _ => Stuck "str.encode: only (encoding)"
+    end
   else Stuck "unknown str method".
 
 (* sum(elt for x in s) over the characters of a str: left to right from 0 *)
@@ -546,6 +558,8 @@ Inductive stmt :=
 | SSelfItemSetAttr (field : string) (key : expr) (a : string) (value : expr)
 | SAlias (x : string) (field : string) (key : expr)      (* x = self.field[key]: x aliases the item; KeyError when absent *)
 | SPathSet (x : string) (a : string) (value : expr)      (* x.a = value, x an alias: written through self *)
+| STryAs (body : list stmt) (handlers : list (list exn * string * list stmt))
+    (* try: body  except (K1, ..) as x: handler ..: x is bound to a token naming the exception *)
 | SSelfSubSet (a f : string) (value : expr)               (* self.a.f = value: self.a an instance this object owns *)
 | SGlobalEffect (target : option string) (g : string) (args : list expr).
     (* [target =] g(..) where g is a function outside the translation that changes its arguments (objects
@@ -598,6 +612,15 @@ Definition ctor_default (cls f : string) : option val :=
     else None
   else if String.eqb cls "TextDocumentSyncOptions" || String.eqb cls "RenameOptions" then Some VNone
   else None.
+
+(* the value `except .. as x` binds: an opaque token naming the kind of the exception *)
+Definition exn_name (k : exn) : string :=
+  match k with
+  | IndexError => "IndexError" | TypeError => "TypeError" | ValueError => "ValueError"
+  | AttributeError => "AttributeError" | KeyError => "KeyError" | ExcOther => "Exception"
+  | ExcUser n => n | ExcAny => "Exception"
+  end.
+Definition exc_val (k : exn) : val := VObj "$exception" [("kind", VGlobal [exn_name k])].
 
 Definition construct (cls : string) (fields : list string) (args : list val) (kw : list (string * val))
   : res val :=
@@ -686,7 +709,7 @@ Definition global_method (p : list string) (args : list val) : option (res val) 
     (* an empty text buffer; it is written to by the statement SMutCall only *)
     Some (match args with [] => Ok (VObj "StringIO" [("buf", VStr [])]) | _ => Stuck "io.StringIO with an argument" end)
   else if path_eqb p ["logger"; "error"] || path_eqb p ["logger"; "warning"] || path_eqb p ["logger"; "info"]
-          || path_eqb p ["logger"; "debug"] then
+          || path_eqb p ["logger"; "debug"] || path_eqb p ["logger"; "exception"] then
     Some (Ok VNone)                    (* logging: nothing the models observe *)
   else None.
 
@@ -814,7 +837,11 @@ Definition apply_global (p : list string) (args : list val) (kw : list (string *
     end
   | [c; _] =>
     match global_method p args with
-    | Some r => match kw with [] => r | _ => Stuck "primitive with keywords" end
+    | Some r => match kw with
+                | [] => r
+                | _ => if String.eqb c "logger" then r      (* logging with exc_info= / extra=: nothing observed *)
+                       else Stuck "primitive with keywords"
+                end
     | None =>
       match ctor_table p with
       | Some (cls, fields) => construct cls fields args kw
@@ -1684,6 +1711,16 @@ Fixpoint exec (env : envT) (s : stmt) {struct s} : outcome :=
          match hs with
          | [] => ORaise k env'
          | (ks, h) :: r => if exn_in k ks then block env' h else try_handlers r
+         end) handlers
+    | o => o
+    end
+  | STryAs body handlers =>
+    match block env body with
+    | ORaise k env' =>
+      (fix try_handlers (hs : list (list exn * string * list stmt)) : outcome :=
+         match hs with
+         | [] => ORaise k env'
+         | (ks, x, h) :: r => if exn_in k ks then block (set x (exc_val k) env') h else try_handlers r
          end) handlers
     | o => o
     end
